@@ -374,6 +374,54 @@ CALL_SVC = {"view.update/attr": 15, "view.update/bound": 15, "view.get/attr": 8,
             "filter_for_probability/bound": 11, "filter_for_rate/attr": 12, "filter_for_rate/bound": 12,
             "choice/attr": 13, "choice/bound": 13, "table/call": 14, "table/bound": 14}
 CALL_SVC.update(IFACE_SVC)
+BASE_CALLS = list(CALLS)
+VARIANT_SVC = {"view.update": 15, "view.get": 8, "pipe": 9, "get_draw": 10, "filter_for_probability": 11,
+               "filter_for_rate": 12, "choice": 13, "table": 14}
+# (view.update through a full view can never add a column, so during the initial creation - where every update must bring
+# a new column - it fails by itself AFTER the guard let it through)
+STRICT_EXEMPT = {("view.update@full", "population_creation")}
+
+
+def svc_of_label(label):
+    """named service number of a call label (None: a service the property does not name)"""
+    if label in CALL_SVC:
+        return CALL_SVC[label]
+    if "@" in label:
+        return VARIANT_SVC.get(label.split("@")[0])
+    return None
+
+
+_VARIANTS = {}
+
+
+def variants():
+    """The ways a handle of each per-object service can be obtained through the public builder API of THIS source tree
+    (read off the interface classes, so that a new keyword or helper shows up as a new variant)."""
+    if not _VARIANTS:
+        import inspect
+        from vivarium import Component
+        from vivarium.framework.randomness.manager import RandomnessInterface
+        from vivarium.framework.values import ValuesInterface
+        params = list(inspect.signature(RandomnessInterface.get_stream).parameters)
+        streams = []
+        if "initializes_crn_attributes" in params:
+            streams.append("crn")
+        if "component" in params:
+            streams.append("component")
+        pipes = ["late", "union"] + (["rate"] if hasattr(ValuesInterface, "register_rate_producer") else [])
+        tables = ["cat", "interp", "multi"] + (["comp"] if hasattr(Component, "build_lookup_table") else [])
+        _VARIANTS.update(streams=streams, views=["str", "full", "query"], pipes=pipes, tables=tables)
+    return _VARIANTS
+
+
+def call_labels():
+    v = variants()
+    updates = [f"view.update@{x}" for x in v["views"]]
+    rest = [f"view.get@{x}" for x in v["views"]] + [f"pipe@{x}" for x in v["pipes"]]
+    for x in v["streams"]:
+        rest += [f"get_draw@{x}", f"filter_for_probability@{x}", f"filter_for_rate@{x}", f"choice@{x}"]
+    rest += [f"table@{x}" for x in v["tables"]]
+    return BASE_CALLS[:4] + updates + BASE_CALLS[4:] + rest
 
 
 def make_classes():
@@ -429,7 +477,10 @@ def make_classes():
 
         @property
         def columns_created(self):
-            return [f"c07_{self.tag}_{x}" for x in ("abcd" if self.use_subviews else "ab")]
+            return [f"c07_{self.tag}_{x}" for x in ("abcdegk" if self.use_subviews else "abegk")]
+
+        def col(self, x):
+            return f"c07_{self.tag}_{x}"
 
         # ---- setup: obtain the handles (this probe's "age" = where it stands in the component list) ----
         def setup(self, builder):
@@ -456,8 +507,9 @@ def make_classes():
             }
             # a pipeline handle obtained BEFORE its producer is registered (by the next probe, cyclically)
             self.early_pipe = builder.value.get_value(f"c07_val_{(t + 1) % self.n_probes}")
-            self.view = builder.population.get_view(cols)
+            self.view = builder.population.get_view([c for c in cols if c[-1] in "abcdk"])
             self.pipe = builder.value.register_value_producer(f"c07_val_{t}", source=self.source)
+            self.setup_variants(builder)
             self.stream = builder.randomness.get_stream(f"c07_stream_{t}")
             self.table = builder.lookup.build_table(5)
             self.objs = {"view": self.view, "stream": self.stream, "table": self.table}
@@ -470,7 +522,7 @@ def make_classes():
                 self.bound[label] = rec.capture(obj, name)
             self.sub = None
             if self.use_subviews:
-                self.sub = self.view.subview(cols[2:])
+                self.sub = self.view.subview([self.col("c"), self.col("d")])
                 self.bound["sub.update/bound"] = rec.capture(self.sub, "update")
                 self.bound["sub.get/bound"] = rec.capture(self.sub, "get")
             builder.event.register_listener("report", self.on_report)
@@ -478,6 +530,71 @@ def make_classes():
 
         def source(self, index):
             return pd.Series(1.0, index=index)
+
+        def list_source(self, index):
+            return [pd.Series(0.25, index=index)]
+
+        def setup_variants(self, builder):
+            """every other way of obtaining a per-object service handle through the public builder API"""
+            from vivarium.framework.values import list_combiner, union_post_processor
+            t, v = self.tag, variants()
+            self.vstreams, self.vviews, self.vpipes, self.vtables, self.emitters = {}, {}, {}, {}, {}
+            if "crn" in v["streams"]:
+                self.vstreams["crn"] = builder.randomness.get_stream(f"c07_stream_crn_{t}", initializes_crn_attributes=True)
+            if "component" in v["streams"]:
+                self.vstreams["component"] = builder.randomness.get_stream(f"c07_stream_comp_{t}", component=self)
+            self.vviews["str"] = builder.population.get_view(self.col("e"))
+            self.vviews["full"] = builder.population.get_view([])
+            self.vviews["query"] = builder.population.get_view([self.col("g")], query=f"{self.col('g')} >= 0")
+            self.vview_col = {"str": self.col("e"), "full": self.col("a"), "query": self.col("g")}
+            self.vpipes["late"] = builder.value.get_value(f"c07_val_{t}")          # requested AFTER the producer
+            self.vpipes["union"] = builder.value.register_value_producer(
+                f"c07_union_{t}", source=self.list_source, preferred_combiner=list_combiner,
+                preferred_post_processor=union_post_processor)
+            if "rate" in v["pipes"]:
+                self.vpipes["rate"] = builder.value.register_rate_producer(f"c07_rate_{t}", source=self.source)
+            k, a = self.col("k"), self.col("a")
+            self.vtables["cat"] = builder.lookup.build_table(
+                pd.DataFrame({k: ["x", "y"], "value": [1.0, 2.0]}), key_columns=[k], parameter_columns=[],
+                value_columns=["value"])
+            self.vtables["interp"] = builder.lookup.build_table(
+                pd.DataFrame({f"{a}_start": [0.0, 5.0], f"{a}_end": [5.0, 10.0], "value": [1.0, 2.0]}), key_columns=[],
+                parameter_columns=[a], value_columns=["value"])
+            self.vtables["multi"] = builder.lookup.build_table([1, 2], value_columns=["p", "q"])
+            if "comp" in v["tables"]:
+                self.vtables["comp"] = self.build_lookup_table(builder, 3)
+            for ch in ("post_setup", "time_step__prepare", "time_step", "time_step__cleanup", "collect_metrics",
+                       "simulation_end", "report"):
+                try:
+                    self.emitters[ch] = builder.event.get_emitter(ch)
+                except Exception:
+                    pass
+
+        def handles(self):
+            """(description, service number or 0, key of the method that must carry the guard) of every handle obtained"""
+            out = []
+
+            def meth(desc, svc, obj, name):
+                out.append((desc, svc, self.rec.method_id(obj, name)))
+
+            def whole(desc, svc, obj):
+                m = self.constrained_method_of(obj)
+                out.append((desc, svc, m if m is not None else self.rec.method_id(obj, "<call: unconstrained>")))
+            t = self.tag
+            for vn, vw in [("list", self.view)] + sorted(self.vviews.items()):
+                meth(f"probe {t}: view[{vn}].get", 8, vw, "get")
+                meth(f"probe {t}: view[{vn}].update", 15, vw, "update")
+            for vn, st_ in [("default", self.stream)] + sorted(self.vstreams.items()):
+                for i, name in enumerate(["get_draw", "filter_for_probability", "filter_for_rate", "choice"]):
+                    meth(f"probe {t}: stream[{vn}].{name}", 10 + i, st_, name)
+            for vn, pp in [("producer", self.pipe), ("early get_value", self.early_pipe)] + sorted(self.vpipes.items()):
+                whole(f"probe {t}: pipeline[{vn}]", 9, pp)
+            for vn, tb in [("scalar", self.table)] + sorted(self.vtables.items()):
+                whole(f"probe {t}: lookup table[{vn}]", 14, tb)
+            for ch, em in sorted(self.emitters.items()):
+                if hasattr(em, "__self__"):
+                    meth(f"emitter[{ch}]", 0, em.__self__, em.__name__)
+            return out
 
         # ---- the calls ----
         def thunks(self, idx):
@@ -493,8 +610,10 @@ def make_classes():
             def mgr_m(label):
                 return self.rec_manager_method(label)
             d = {
-                "view.update/attr": ("attr", (self.view, "update"), lambda: self.view.update(upd(cols[0]))),
-                "view.update/bound": ("handle", "view.update/bound", lambda: self.bound["view.update/bound"][0](upd(cols[1]))),
+                "view.update/attr": ("attr", (self.view, "update"), lambda: self.view.update(
+                    pd.DataFrame({self.col("a"): 1.0, self.col("k"): "x"}, index=idx))),
+                "view.update/bound": ("handle", "view.update/bound",
+                                      lambda: self.bound["view.update/bound"][0](upd(self.col("b")))),
                 "register_listener": ("iface", None, lambda: st["register_listener"]("time_step", _noop_listener, 5)),
                 "register_value_producer": ("iface", None, lambda: st["register_value_producer"](
                     f"c07_extra_{t}_{n}", source=self.source)),
@@ -523,7 +642,7 @@ def make_classes():
                 "choice/bound": ("handle", "choice/bound", lambda: self.bound["choice/bound"][0](idx, [1, 2])),
                 "table/call": ("table", self.table, lambda: self.table(idx)),
                 "table/bound": ("handle", "table/bound", lambda: self.bound["table/bound"][0](idx)),
-                "get_view": ("iface", None, lambda: st["get_view"](cols[:1])),
+                "get_view": ("iface", None, lambda: st["get_view"]([self.col("a")])),
                 "get_emitter": ("iface", None, lambda: st["get_emitter"]("time_step")),
                 "get_seed": ("iface", None, lambda: st["get_seed"]("c07")),
                 "get_component": ("iface", None, lambda: st["get_component"](self.name)),
@@ -531,9 +650,24 @@ def make_classes():
                 "get_components_by_type": ("iface", None, lambda: st["get_components_by_type"](Probe)),
                 "data_load": ("iface", None, lambda: st["data_load"]("c07.no.such_key")),
             }
+            for vn, vw in self.vviews.items():
+                d[f"view.update@{vn}"] = ("attr", (vw, "update"),
+                                          (lambda vw=vw, c=self.vview_col[vn]: vw.update(upd(c))))
+                d[f"view.get@{vn}"] = ("attr", (vw, "get"), (lambda vw=vw: vw.get(idx)))
+            for vn, pp in self.vpipes.items():
+                d[f"pipe@{vn}"] = ("pipe", pp, (lambda pp=pp: pp(idx)))
+            for vn, s_ in self.vstreams.items():
+                d[f"get_draw@{vn}"] = ("attr", (s_, "get_draw"), (lambda s_=s_: s_.get_draw(idx)))
+                d[f"filter_for_probability@{vn}"] = ("attr", (s_, "filter_for_probability"),
+                                                     (lambda s_=s_: s_.filter_for_probability(idx, 0.5)))
+                d[f"filter_for_rate@{vn}"] = ("attr", (s_, "filter_for_rate"), (lambda s_=s_: s_.filter_for_rate(idx, 0.5)))
+                d[f"choice@{vn}"] = ("attr", (s_, "choice"), (lambda s_=s_: s_.choice(idx, [1, 2])))
+            for vn, tb in self.vtables.items():
+                d[f"table@{vn}"] = ("table", tb, (lambda tb=tb: tb(idx)))
             if self.sub is not None:
-                d["sub.update/attr"] = ("attr", (self.sub, "update"), lambda: self.sub.update(upd(cols[2])))
-                d["sub.update/bound"] = ("handle", "sub.update/bound", lambda: self.bound["sub.update/bound"][0](upd(cols[3])))
+                d["sub.update/attr"] = ("attr", (self.sub, "update"), lambda: self.sub.update(upd(self.col("c"))))
+                d["sub.update/bound"] = ("handle", "sub.update/bound",
+                                         lambda: self.bound["sub.update/bound"][0](upd(self.col("d"))))
                 d["sub.get/attr"] = ("attr", (self.sub, "get"), lambda: self.sub.get(idx))
                 d["sub.get/bound"] = ("handle", "sub.get/bound", lambda: self.bound["sub.get/bound"][0](idx))
             return d
@@ -559,10 +693,11 @@ def make_classes():
             self.visits[state] = v + 1
             idx = index if index is not None else pd.Index([], dtype="int64")
             th = self.thunks(idx)
-            for label in CALLS:
+            for label in call_labels():
                 if label not in th:
                     continue
-                forced = state == "population_creation" and label.split("/")[0] in ("view.update", "sub.update")
+                forced = (state == "population_creation"
+                          and label.replace("@", "/").split("/")[0] in ("view.update", "sub.update"))
                 if not (forced or self.plan(self.tag, state, v, label)):
                     continue
                 how, ref, thunk = th[label]
@@ -742,6 +877,17 @@ def table_rows(rec):
     return rows
 
 
+def all_handles(mx):
+    """every handle obtained by the probes of the matrix context, de-duplicated by (key, service)"""
+    seen, out = set(), []
+    for p in mx["probes"]:
+        for desc, svc, m in p.handles():
+            if (m, svc) not in seen:
+                seen.add((m, svc))
+                out.append((desc, svc, m))
+    return out
+
+
 def coq_table(rows):
     return clist("\n  " + cpair(cz(m), cz(svc), czlist(A)) + f"   (* {att['owner']}.{att['name']} guid {att['guid']} *)"
                  for m, svc, A, att in rows)
@@ -767,6 +913,17 @@ def tables(run):
     others = sorted({f"{att['owner']}.{att['name']}: allow={att['allow']} restrict={att['restrict']}"
                      for att in rec.attempts if not isinstance(att["svc"], int) and att["code"] == 0})
     run.notes.append("services extracted but not constrained by the property: " + "; ".join(others))
+    try:
+        from vivarium.framework.resource import ResourceInterface
+        from vivarium.framework.results.interface import ResultsInterface
+        pub = [f"builder.results.{n}" for n in dir(ResultsInterface) if n.startswith("register_")]
+        pub += [f"builder.resources.{n}" for n in dir(ResourceInterface) if not n.startswith("_") and n != "name"]
+        owners = {att["owner"] for att in rec.attempts}
+        run.notes.append("registration methods the property does not name and the code does not constrain (no add_constraint "
+                         "by ResultsManager/ResourceManager: " + str(not ({"ResultsManager", "ResourceManager"} & owners)) +
+                         "): " + ", ".join(pub))
+    except Exception:
+        pass
     lines = ["(* GENERATED on every run by harness/props/c07.py from the live code - do not edit *)",
              "From Viv Require Import Common Lifecycle LifecycleProofs Constraints ConstraintsProofs.",
              "Local Open Scope Z_scope.", "",
@@ -776,7 +933,15 @@ def tables(run):
              "   as handed to the constraint maker) *)",
              "Definition constraint_table : list row := " + coq_table(rows) + ".",
              "(* every add_constraint attempt: (state set, allow_during, restrict_during, outcome code, permitted list) *)",
-             "Definition installs : list install_case := " + clist("\n  " + x for x in installs) + ".", "",
+             "Definition installs : list install_case := " + clist("\n  " + x for x in installs) + ".",
+             "(* every handle the probes obtained through the public builder API, in every variant: (key of the method that",
+             "   must carry the guard, service number; 0 = not a named service) *)",
+             "Definition handles : list handle_entry := " +
+             clist("\n  " + cpair(cz(m), cz(svc)) + f"   (* {desc} *)" for desc, svc, m in all_handles(mx) if svc) + ".",
+             "(* handles of services the property does not name (emitters): listed, their missing rows shown, not required *)",
+             "Definition other_handles : list handle_entry := " +
+             clist(cpair(cz(m), cz(svc)) for desc, svc, m in all_handles(mx) if not svc) + ".",
+             "Eval vm_compute in missing_handles constraint_table other_handles.", "",
              "Theorem C07_engine_states_documented : same_set engine_states documented_states = true.",
              "Proof. vm_compute. reflexivity. Qed.",
              "Eval vm_compute in failing_entries engine_states constraint_table.",
@@ -785,8 +950,16 @@ def tables(run):
              "Theorem C07_matrix : matrix_okb engine_states constraint_table = true.",
              "Proof. vm_compute. reflexivity. Qed.",
              "Eval vm_compute in missing_services constraint_table.",
-             "Theorem C07_table_complete : complete_okb constraint_table = true.",
+             "Eval vm_compute in missing_handles constraint_table handles.",
+             "(* complete: every named service occurs, and EVERY obtained handle - whatever the variant - has its row *)",
+             "Theorem C07_table_complete : complete_okb constraint_table && handles_okb constraint_table handles = true.",
              "Proof. vm_compute. reflexivity. Qed.",
+             "Theorem C07_every_handle_guarded : forall key svc k, In (key, svc) handles -> kind_of svc = Some k ->",
+             "  exists A, In (key, svc, A) constraint_table /\\ forall s, In s engine_states -> (In s A <-> spec k s = true).",
+             "Proof.",
+             "  apply every_handle_guarded; [exact C07_matrix|].",
+             "  pose proof C07_table_complete as H. apply andb_true_iff in H. exact (proj2 H).",
+             "Qed.",
              "(* what add_constraint installed is what the model's `permitted` computes from the recorded arguments *)",
              "Theorem C07_installed_as_modelled : forallb check_install installs = true.",
              "Proof. vm_compute. reflexivity. Qed.",
@@ -799,6 +972,7 @@ def tables(run):
              "    (call_attr (run w post) m = Rejected EConstraint <-> spec k (cur (mgr (run w post))) = false).",
              "Proof. apply service_available_exactly. exact C07_matrix. Qed.",
              "Print Assumptions C07_matrix.", "Print Assumptions C07_table_complete.",
+             "Print Assumptions C07_every_handle_guarded.",
              "Print Assumptions C07_installed_as_modelled.", "Print Assumptions C07_named_services_all_histories.", ""]
     return [("ConstraintTable_C07.v", "\n".join(lines))]
 
@@ -829,14 +1003,46 @@ def run_matrix_entry(case):
                   tags=(f"kind{KIND[svc]}",))
 
 
+# ---- stream `handles`: every obtained handle (all variants) must carry its constraint -----------------------------
+def all_handle_cases():
+    return [{"n": i} for i in range(len(all_handles(matrix())))]
+
+
+def run_handle(case):
+    mx = matrix()
+    hs = all_handles(mx)
+    if case["n"] >= len(hs):
+        return Result(ok=True, msg="no such handle in this source tree", coq=None)
+    desc, svc, m = hs[case["n"]]
+    att = mx["rec"].constrained.get(m)
+    ok, msg = True, ""
+    if att is None and not svc:
+        pass            # a service the property does not name: recorded, not required
+    elif att is None:
+        ok = False
+        msg = (f"{desc}: the handle was obtained through the builder API but its "
+               f"{SVC_NAME.get(svc, 'service')} method was never constrained - it is available in every state")
+    elif svc and att["svc"] != svc:
+        ok, msg = False, f"{desc}: constrained as {att['svc']}, expected service {svc}"
+    elif svc:
+        for st in STATES:
+            if (sid(st) in [sid(x) for x in att["permitted"]]) != spec(KIND[svc], st):
+                ok, msg = False, f"{desc}: permitted list {att['permitted']} disagrees with the property in state {st}"
+                break
+    return Result(ok=ok, msg=msg, coq=("(" + cpair(cz(m), cz(svc)) + " : handle_entry)") if svc else None, key=(desc,),
+                  obs={"handle": desc, "service": svc, "constrained": att is not None,
+                       "permitted": att["permitted"] if att else None},
+                  tags=(f"svc{svc}",))
+
+
 # ---- stream `cells`: service handle x state x age ------------------------------------------------------------------
 def all_cells():
-    return [{"call": c, "state": s, "age": a} for c in CALLS for s in RUN_STATES for a in range(3)]
+    return [{"call": c, "state": s, "age": a} for c in call_labels() for s in RUN_STATES for a in range(3)]
 
 
 def oracle_call(label, state, code, note=None):
     """The property statement on one call outcome.  -> (ok, msg, finding class)"""
-    svc = CALL_SVC.get(label) or SUBVIEW_CALLS.get(label)
+    svc = svc_of_label(label) or SUBVIEW_CALLS.get(label)
     if svc is None:
         return True, "", None               # a service the property does not speak about
     want = spec(KIND[svc], state)
@@ -864,7 +1070,7 @@ def run_cell(case):
     if not visits:
         return Result(ok=False, msg=f"harness: call {label} was never issued in state {state} by probe {age}")
     ok, msg, fclass = True, "", None
-    named = label in CALL_SVC
+    named = svc_of_label(label) is not None and (label, state) not in STRICT_EXEMPT
     for v, code, err, m, note in visits:
         o, ms, fc = oracle_call(label, state, code, note)
         if not o:
@@ -1287,11 +1493,13 @@ def streams(tier):
         Stream(name="matrix", imports=tab, check="(check_matrix_entry constraint_table)", gen=None,
                run=run_matrix_entry, exhaustive=all_matrix_entries,
                doc="every (named service, state) entry of the generated constraint table"),
+        Stream(name="handles", imports=tab, check="(check_handle constraint_table)", gen=None, run=run_handle,
+               exhaustive=all_handle_cases, doc="every handle variant obtained through the builder API has its constraint"),
         Stream(name="cells", imports=tab, check="(fun cs => forallb (check_cell constraint_table) cs)", gen=None,
                run=run_cell, exhaustive=all_cells, finding_of=finding_cells,
                doc="service handle x state x handle age on a real context, every visit"),
         Stream(name="real", imports="From Viv Require Import Common Lifecycle Constraints.", check="check_hist_real",
-               gen=gen_real, run=run_real, n_quick=24, n_thorough=150, finding_of=finding_real),
+               gen=gen_real, run=run_real, n_quick=14, n_thorough=100, finding_of=finding_real),
         Stream(name="hist", imports="From Viv Require Import Common Lifecycle Constraints.", check="check_hist",
                gen=gen_hist, run=run_hist, n_quick=400, n_thorough=8000),
         Stream(name="install", imports="From Viv Require Import Common Lifecycle Constraints.", check="check_install",
